@@ -6,8 +6,10 @@
    `removed_queue` before that send + whether source_complete is set.  Chunks are arbitrary lists of
    samples of arbitrary lengths (empty chunks included): "any stream, any chunking".
 
-   wf_sched B n0 fs (Spec.v), the schedules the property quantifies over:
-     B >= 0, one epoch length n0 >= 0, distinct (t0,key),
+   wf_sched B fs (Spec.v), the schedules the property quantifies over:
+     B >= 0, epoch lengths n >= 0, distinct (t0,key),
+     epochs that become complete at the same send are equally long [lengths_ok; they are stacked into
+       one array - always true when epoch_size is given; see C05_unequal_lengths_refuted],
      every request's first sample is still in the look-back chunks (or in the future) at the send at
      which it becomes visible [visible B fs],
      no removal notice is processed at an earlier send than the request it names.
@@ -27,15 +29,15 @@ Proof. exact run_refines_spec. Qed.
 Print Assumptions C05_refines_spec.
 
 (* No send of a well-formed schedule raises; every send is answered. *)
-Theorem C05_no_error : forall B k n0 fs, wf_sched B n0 fs = true ->
+Theorem C05_no_error : forall B k fs, wf_sched B fs = true ->
   Forall (fun o => is_err o = false) (run B k fs) /\ length (run B k fs) = length fs.
 Proof. exact no_error. Qed.
 Print Assumptions C05_no_error.
 
 (* Every request that is never removed and whose samples all arrive is delivered exactly once, and
    the delivered epoch is exactly stream[lo, lo+n) with that request's key and metadata. *)
-Theorem C05_exact_once : forall B k n0 fs a r,
-  wf_sched B n0 fs = true -> arrives fs a r ->
+Theorem C05_exact_once : forall B k fs a r,
+  wf_sched B fs = true -> arrives fs a r ->
   (forall j, ~ removed_at fs j (r_key r)) ->
   r_lo r + r_n r <= zlen (stream_of fs) ->
   count_key (r_key r) (delivered (run B k fs)) = 1 /\
@@ -46,8 +48,8 @@ Print Assumptions C05_exact_once.
 
 (* A request removed at send #j is never delivered if its last sample had not arrived before that
    send (or if j is the very send at which it became visible). *)
-Theorem C05_removed_never : forall B k n0 fs a j r,
-  wf_sched B n0 fs = true -> arrives fs a r -> removed_at fs j (r_key r) ->
+Theorem C05_removed_never : forall B k fs a j r,
+  wf_sched B fs = true -> arrives fs a r -> removed_at fs j (r_key r) ->
   ((j <= a)%nat \/ seen fs j < r_lo r + r_n r) ->
   count_key (r_key r) (delivered (run B k fs)) = 0.
 Proof. exact removed_never. Qed.
@@ -56,8 +58,8 @@ Print Assumptions C05_removed_never.
 (* Removal after completion does not affect the epoch: if every removal of the request happens at a
    later send than its arrival and after its last sample had been sent, it is delivered exactly once,
    with exactly its samples.  (C05_exact_once is the case without removals.) *)
-Theorem C05_removed_after_unaffected : forall B k n0 fs a r,
-  wf_sched B n0 fs = true -> arrives fs a r ->
+Theorem C05_removed_after_unaffected : forall B k fs a r,
+  wf_sched B fs = true -> arrives fs a r ->
   (forall j, removed_at fs j (r_key r) -> (a < j)%nat /\ r_lo r + r_n r <= seen fs j) ->
   r_lo r + r_n r <= zlen (stream_of fs) ->
   count_key (r_key r) (delivered (run B k fs)) = 1 /\
@@ -68,7 +70,7 @@ Print Assumptions C05_removed_after_unaffected.
 
 (* Every delivered epoch is the exact slice of some request of the schedule and carries that
    request's own metadata identity (i_rid), key and start sample; none is a "missed" stub. *)
-Theorem C05_metadata : forall B k n0 fs, wf_sched B n0 fs = true ->
+Theorem C05_metadata : forall B k fs, wf_sched B fs = true ->
   forall it, In it (delivered (run B k fs)) ->
   exists a r, arrives fs a r /\ it = s_item (stream_of fs) r.
 Proof. exact delivered_sound. Qed.
@@ -90,8 +92,8 @@ Print Assumptions C05_done_only_when.
 
 (* ... at which, for a well-formed schedule, no request waits in the specification either: every
    request made visible so far has been delivered or removed. *)
-Theorem C05_done_all_delivered : forall B k n0 fs j st b,
-  wf_sched B n0 fs = true ->
+Theorem C05_done_all_delivered : forall B k fs j st b,
+  wf_sched B fs = true ->
   nth_error (trace B k xinit fs) j = Some (st, FOut b true) ->
   exists s, nth_error (spec_trace B k sinit fs) j = Some (s, FOut b true) /\ s_wait s = [].
 Proof. exact done_means_all_delivered. Qed.
@@ -106,13 +108,26 @@ Theorem C05_done_fires : forall B k fs j st b f,
 Proof. exact done_fires. Qed.
 Print Assumptions C05_done_fires.
 
-(* The look-back precondition in the user's terms: it is enough that each request's first sample is
-   not older than B samples before the chunk being sent when the request becomes visible. *)
+(* The preconditions in the user's terms: it is enough that all epochs have one length n0 (epoch_size
+   given) and that each request's first sample is not older than B samples before the chunk being
+   sent when the request becomes visible (the configured look-back). *)
 Theorem C05_lookback_sufficient : forall B n0 fs,
   (0 <=? B) && (0 <=? n0) && forallb (fun r => r_n r =? n0) (all_reqs fs) && nodupz (req_keys fs) &&
-  within_lookback B 0 fs && rems_ok fs = true -> wf_sched B n0 fs = true.
+  within_lookback B 0 fs && rems_ok fs = true -> wf_sched B fs = true.
 Proof. exact lookback_ok. Qed.
 Print Assumptions C05_lookback_sufficient.
+
+(* Without lengths_ok the statement is false of the faithful model (and of the code): two requests with
+   different per-request `duration` whose last samples arrive with the same chunk make the send raise
+   (np.concatenate of unequal rows), nothing is delivered and the extractor is dead afterwards.
+   All other preconditions hold for the witness. *)
+Theorem C05_unequal_lengths_refuted : exists B k fs a r,
+  (0 <=? B) && forallb (fun r => 0 <=? r_n r) (all_reqs fs) && nodupz (req_keys fs) && visible B fs &&
+  rems_ok fs = true /\
+  arrives fs a r /\ (forall j, ~ removed_at fs j (r_key r)) /\ r_lo r + r_n r <= zlen (stream_of fs) /\
+  count_key (r_key r) (delivered (run B k fs)) = 0 /\ run B k fs = [FErr EStack].
+Proof. exact unequal_lengths_refuted. Qed.
+Print Assumptions C05_unequal_lengths_refuted.
 
 (* ------------------------------------------------------------------------------------------------ *)
 (* The hypotheses are satisfiable: 14 samples in chunks of 3,4,1,4,2; look-back 3; epochs of 5 samples.
@@ -127,7 +142,7 @@ Definition ex_sched : list feed :=
     mkfeed [18;19;20;21] [2] [mkreq 1 5 5 101] true;
     mkfeed [22;23] [3] [] true ].
 
-Example C05_ex_wf : wf_sched 3 5 ex_sched = true.
+Example C05_ex_wf : wf_sched 3 ex_sched = true.
 Proof. vm_compute. reflexivity. Qed.
 
 Example C05_ex_run : run 3 (mkkind true false) ex_sched =
